@@ -47,6 +47,8 @@ type Event struct {
 	Depth  int
 	InFn   *ssa.Function // function whose body contains the instruction
 	Binds  map[string]*Term // contents of closure-captured cells at call time (key: alloc term key)
+	InHOF  string // non-empty: executed inside the function argument of this higher-order callee (e.g. a goroutine body)
+	HOFSeq int    // sequence number of the higher-order call event that runs it
 }
 
 type Summary struct {
@@ -83,6 +85,7 @@ type frame struct {
 	callInst  ssa.Instruction
 	fromDefer bool
 	hofOf     string // non-empty: this frame is the function argument of that higher-order callee
+	hofSeq    int
 }
 
 type state struct {
@@ -236,6 +239,12 @@ func (s *state) emit(ev Event) {
 	for _, f := range s.stack {
 		if f.fromDefer {
 			ev.AtExit = true // effects of an inlined deferred call happen at function exit
+			break
+		}
+	}
+	for i := len(s.stack) - 1; i >= 0; i-- {
+		if s.stack[i].hofOf != "" {
+			ev.InHOF, ev.HOFSeq = s.stack[i].hofOf, s.stack[i].hofSeq
 			break
 		}
 	}
@@ -581,6 +590,9 @@ func (e *Engine) mkDeferred(s *state, fr *frame, c *ssa.CallCommon, pos token.Po
 			break
 		}
 		ft := e.val(s, fr, c.Value)
+		if ft != nil && ft.Typ == nil {
+			ft = mk(ft.Kind, ft.Name, ft.Idx, c.Value.Type(), ft.Args...) // records the static type of the callee value
+		}
 		d.callee = "dyn"
 		d.recv = ft
 		var fn *ssa.Function
@@ -772,6 +784,7 @@ func (e *Engine) doCall(s *state, fr *frame, v *ssa.Call, c *ssa.CallCommon) boo
 			}
 			nf := e.newFrame(opFn, fr, od, v, v.Pos())
 			nf.hofOf = d.callee
+			nf.hofSeq = s.seq // the higher-order call event just emitted
 			s.stack = append(s.stack, nf)
 			return true // the call evaluates to what the function argument returned (single synchronous run)
 		}
